@@ -183,6 +183,25 @@ def oracle_trend(case, ctx):
     if not np.allclose(got, exp, rtol=1e-6, atol=1e-6 * scale):
         discs.append(D("polytrend", "degree=%d intercept=%s n=%d start=%d fh=%s: got %s expected %s"
                        % (deg, icpt, n, case["start"], steps, got.tolist(), exp.tolist())))
+    m = case.get("moved") or 0
+    if m and not discs:
+        # new observations arrive without a re-fit: the same fitted polynomial, evaluated at
+        # the time points now requested (steps from the moved cutoff)
+        y_new = gen.build_series([float(v[-1]) + 0.5 * (j + 1) for j in range(m)], cutoff + 1, case["index_kind"])
+        u = sut(f.update, y_new, None, False)
+        if isinstance(u, Raised):
+            return [unexpected(u, "update(update_params=False)")]
+        p2 = sut(f.predict, gen.build_fh(steps, case["fh_kind"]))
+        if isinstance(p2, Raised):
+            return [unexpected(p2, "predict(%s) after update" % steps)]
+        tp2 = np.array([n - 1 + m + h for h in steps], dtype=float)
+        exp2 = np.column_stack([tp2 ** k for k in powers]) @ coef
+        ctx.label("cutoff_moved_without_refit")
+        if [int(i) for i in p2.index] != [cutoff + m + h for h in steps]:
+            discs.append(D("forecast_index", "after update: fh=%s index=%s" % (steps, list(p2.index))))
+        elif not np.allclose(p2.to_numpy(dtype=float), exp2, rtol=1e-6, atol=1e-6 * scale):
+            discs.append(D("polytrend_after_update_without_refit", "degree=%d intercept=%s n=%d +%d fh=%s: got %s expected %s"
+                           % (deg, icpt, n, m, steps, p2.tolist(), exp2.tolist())))
     ctx.label("degree=%d" % deg)
     ctx.mark_nontrivial((not icpt) or case["start"] != 0 or any(h <= 0 for h in steps))
     if not icpt:
@@ -203,7 +222,7 @@ def trend_cases(draw):
         "values": draw(gen.series_values(n, n, lo=-500.0, hi=1000.0)), "fh": steps,
         "start": draw(gen.index_start), "index_kind": draw(gen.index_kind),
         "fh_kind": draw(st.sampled_from(["list", "array", "fh"])),
-        "prefit": draw(st.sampled_from([0, 0, 2, 5])),
+        "prefit": draw(st.sampled_from([0, 0, 2, 5])), "moved": draw(st.sampled_from([0, 0, 1, 3])),
     }
 
 
